@@ -42,6 +42,12 @@ def check(ctx):
                    f"fraction over all bookings and an end fraction over the task's own bookings puts the end before the start)", floor=3)
         ctx.guarded(o, lambda o, S=S: sched_fill.selectors(ctx, o, S))
 
+    for S in BOTH:
+        o = ctx.ob(f"{S['name']}_every_call_schedules_every_task", 'R9',
+                   f"{S['name']}: the memo that makes the pass skip scheduled tasks is allocated per calc call (a memo that survives "
+                   f"on the scheduler makes a repeated calc skip tasks: no dates, no roll-ups)")
+        ctx.guarded(o, lambda o, S=S: sched.memo_is_local(ctx, o, S))
+
     o = ctx.ob('wbs_start_end', 'R8', "WBS.start = min(root starts), WBS.end = max(root ends), over all roots, None filter only", floor=2)
     ctx.guarded(o, lambda o: wbs_bounds(ctx, o))
 
